@@ -215,7 +215,7 @@ def run(prop, tier, seed, work):
     for name, d in entries.items():
         vs = list(U.struct_variants(name, defs, [0, 1, 3], [0, 1, 4]))
         rng.shuffle(vs)
-        for (lbl, v) in vs[: (3 if quick else 8)]:
+        for (lbl, v) in vs[: (3 if quick else 30)]:
             sid = "C12-%s-%s" % (name, lbl)
             tags = checks_codec.struct_tags(name, v, defs) + [d["spelling"]]
             steps = [{"op": "size", "ty": name, "v": 0},
